@@ -337,6 +337,9 @@ pub fn check(sim: &mut Sim, d: &Delivery, w: &Walk, r: &[NetflowPacket], mut bas
                 sim.find("C13-projection-mismatch", d.ev, format!("common view of the v{} packet at offset {}: {}", ver, pk_start, what));
                 return;
             }
+            // an element kind this simulator was not written for: nothing to project against
+            #[allow(unreachable_patterns)]
+            (_, Ok(_)) => {}
         }
     }
     // parse_bytes_as_netflow_common_flowsets == in-order concatenation over non-error packets
